@@ -395,6 +395,13 @@ pub fn tails(t: &Tmpl, rich: bool) -> Vec<(String, Vec<Clause>)> {
         ret("limit1", Proj { items: vec![item(var(a), None)], limit: Some(lit_i(1)), ..Default::default() });
         ret("skip1", Proj { items: vec![item(ap(), None)], skip: Some(lit_i(1)), ..Default::default() });
         ret("limit0", Proj { items: vec![item(var(a), None)], limit: Some(lit_i(0)), ..Default::default() });
+        ret("case_when", Proj { items: vec![item(Expr::Case(Box::new(Expr::Cmp(CmpOp::Eq, Box::new(ap()), Box::new(lit_i(1)))), Box::new(lit_s("one")), Box::new(lit_s("other"))), Some("x"))], ..Default::default() });
+        ret("distinct_order", Proj { distinct: true, items: vec![item(ap(), Some("k"))], order: vec![(var("k"), false)], ..Default::default() });
+        ret("group_min_max", Proj { items: vec![item(Expr::HasLabel(a.to_string(), "A".into()), Some("isA")), item(agg(AggF::Min, false, Some(ap())), Some("lo")), item(agg(AggF::Count, true, Some(ap())), Some("c"))], ..Default::default() });
+        ret("collect_distinct", Proj { items: vec![item(agg(AggF::Collect, true, Some(ap())), Some("xs"))], ..Default::default() });
+        ret("skip_beyond", Proj { items: vec![item(ap(), None)], skip: Some(lit_i(5)), ..Default::default() });
+        ret("order_limit_big", Proj { items: vec![item(ap(), Some("k"))], order: vec![(var("k"), true)], limit: Some(lit_i(10)), ..Default::default() });
+        ret("is_null_proj", Proj { items: vec![item(Expr::IsNull(Box::new(ap()), false), Some("x")), item(Expr::In(Box::new(ap()), Box::new(Expr::List(vec![lit_i(1), lit_i(2)]))), Some("y"))], ..Default::default() });
         if let Some(b) = b {
             let bp = || prop(b, "p");
             ret("ap_bp", Proj { items: vec![item(ap(), None), item(bp(), None)], ..Default::default() });
@@ -434,6 +441,15 @@ pub fn tails(t: &Tmpl, rich: bool) -> Vec<(String, Vec<Clause>)> {
             v
         };
         let ret_c = |items: Vec<Item>| Clause::Return(Proj { items, ..Default::default() });
+        // --- further stages (added after the first full runs; each found or guards a planner path)
+        out.push(("with_collect_unwind".into(), with(Proj { items: vec![item(agg(AggF::Collect, false, Some(var(a))), Some("xs"))], ..Default::default() }, vec![Clause::Unwind { list: var("xs"), var: "x".into() }, ret_c(vec![item(var("x"), None)])])));
+        out.push(("with_two_stages".into(), with(Proj { items: vec![item(var(a), None), item(ap(), Some("k"))], ..Default::default() }, vec![Clause::With(Proj { distinct: true, items: vec![item(var("k"), None)], ..Default::default() }), ret_c(vec![item(var("k"), None)])])));
+        out.push(("with_count_distinct_group".into(), with(Proj { items: vec![item(Expr::HasLabel(a.to_string(), "A".into()), Some("isA")), item(agg(AggF::Count, true, Some(ap())), Some("c"))], ..Default::default() }, vec![ret_c(vec![item(var("isA"), None), item(var("c"), None)])])));
+        out.push(("with_min_max".into(), with(Proj { items: vec![item(agg(AggF::Min, false, Some(ap())), Some("lo")), item(agg(AggF::Max, false, Some(ap())), Some("hi"))], ..Default::default() }, vec![ret_c(vec![item(var("lo"), None), item(var("hi"), None)])])));
+        out.push(("with_skip".into(), with(Proj { items: vec![item(var(a), None), item(ap(), Some("k"))], order: vec![(var("k"), true)], skip: Some(lit_i(1)), ..Default::default() }, vec![ret_c(vec![item(var(a), None), item(var("k"), None)])])));
+        out.push(("with_count_only".into(), with(Proj { items: vec![item(agg(AggF::Count, false, Some(var(a))), Some("c"))], ..Default::default() }, vec![ret_c(vec![item(var("c"), None)])])));
+        out.push(("with_count_star_only".into(), with(Proj { items: vec![item(agg(AggF::Count, false, None), Some("c"))], ..Default::default() }, vec![ret_c(vec![item(var("c"), None)])])));
+        out.push(("with_sum_only".into(), with(Proj { items: vec![item(agg(AggF::Sum, false, Some(ap())), Some("s")), item(agg(AggF::Collect, false, Some(ap())), Some("xs"))], ..Default::default() }, vec![ret_c(vec![item(var("s"), None), item(Expr::Func("size".into(), vec![var("xs")]), Some("n"))])])));
         out.push(("with_a".into(), with(Proj { items: vec![item(var(a), None)], ..Default::default() }, vec![ret_c(vec![item(ap(), None)])])));
         out.push(("with_distinct_a".into(), with(Proj { distinct: true, items: vec![item(var(a), None)], ..Default::default() }, vec![ret_c(vec![item(var(a), None)])])));
         out.push(("with_x_where".into(), with(Proj { items: vec![item(ap(), Some("x"))], where_: Some(cmp(CmpOp::Gt, var("x"), lit_i(1))), ..Default::default() }, vec![ret_c(vec![item(var("x"), None)])])));
